@@ -445,6 +445,8 @@ RULES['C09'] = 'EXHAUSTIVE over subject types x fields x listed reads: for (*T)(
 RULES['C12'] = 'plugin built from the working tree run on the schema corpus (kind x shape x tag-width matrix, all map key/value pairs, interleaved oneofs, maps at depth, nesting/recursion, cross-package graphs with M mappings and source_relative paths, well-known types, name-collision cases for fields and oneofs, custom options/services, the repository\'s own schemas regenerated, negative requests) plus seeded random schema sets; each emitted package compiled separately; every emitted type driven by the codec/wire/total/alias/reflectdiff/nilread engines at smoke size; non-trivial = every plugin invocation and every behavioural case; distinct by schema set / case'
 RULES['C13'] = 'same request repeated in fresh processes (new map-iteration seeds) and compared byte-for-byte; file_to_generate permuted, reversed, reduced to subsets and to single files (per-file content must not change); 4 environment perturbations incl. a renamed binary run from another directory and an empty environment; regex scan of outputs for dates, times, absolute paths, toolchain versions; one run under strace with an allow-list of opened paths and no network/exec/write; distinct by (kind, request, variant)'
 
+RULES['C10'] = 'seeded values of every subject type (valid UTF-8, quiet NaNs) materialised as generated struct and as dynamicpb (for fresh types built on the schema as given to the generator): Equal (self, same value, single-field-perturbed variants in both argument orders), Clone (equal, same Go type, independent after mutating the clone), Merge (vs reference, no aliasing of src), CheckInitialized incl. variants with an unset required field inside embedded proto2 messages, protojson (3 option sets) and prototext marshal output byte-compared with the reference and parsed back into both, Reset; non-trivial = message with >=1 populated field; distinct by type+value'
+
 ASSUME = [
     'google.golang.org/protobuf v1.34.0 dynamicpb + proto (reflection codec) is the reference; it and the harness spec codec must agree before a case is decided',
     'the plain-Go-reflection struct reader (struct tags -> field numbers) reads generated structs correctly',
@@ -452,7 +454,7 @@ ASSUME = [
 ]
 
 
-FLOORS = {'C09': (300, 300), 'C08': (500, 300), 'C15': (1000000, 100000), 'C16': (500, 200), 'C17': (10000, 5000), 'C18': (300, 200), 'C07': (500, 200), 'C01': (500, 200), 'C02': (500, 200), 'C04': (500, 200), 'C05': (100, 30), 'C03': (500, 200), 'C14': (500, 100)}
+FLOORS = {'C10': (500, 200), 'C09': (300, 300), 'C08': (500, 300), 'C15': (1000000, 100000), 'C16': (500, 200), 'C17': (10000, 5000), 'C18': (300, 200), 'C07': (500, 200), 'C01': (500, 200), 'C02': (500, 200), 'C04': (500, 200), 'C05': (100, 30), 'C03': (500, 200), 'C14': (500, 100)}
 
 
 def check_engine(prop, tier, seed, repo, keep):
@@ -936,7 +938,7 @@ CHECKS = {
     'C01': check_engine, 'C02': check_engine, 'C04': check_engine, 'C05': check_engine,
     'C03': check_engine, 'C14': check_engine,
     'C06': check_total, 'C07': check_engine,
-    'C08': check_engine, 'C09': check_engine, 'C12': check_gen_total, 'C13': check_gen_determinism, 'C15': check_engine, 'C16': check_engine, 'C17': check_engine, 'C18': check_isolated_engine,
+    'C08': check_engine, 'C09': check_engine, 'C10': check_engine, 'C12': check_gen_total, 'C13': check_gen_determinism, 'C15': check_engine, 'C16': check_engine, 'C17': check_engine, 'C18': check_isolated_engine,
 }
 
 
